@@ -305,7 +305,8 @@ def quantifier(I, name, n):
             return I.wrap_bool(z3.And(*ts)) if ts else True
         return I.wrap_bool(z3.Or(*ts)) if ts else False
     I.qcount = getattr(I, 'qcount', 0) + 1
-    bv = z3.Int('q%d_%s' % (I.qcount, lam.args.args[0].arg))
+    I.qdepth = getattr(I, 'qdepth', 0) + 1
+    bv = z3.Int('q%d_%s' % (I.qdepth, lam.args.args[0].arg))
     # facts generated while evaluating the body mention the bound variable: they
     # must not escape into the path condition; evaluate with fact capture
     saved_pc = I.st.pc
@@ -321,6 +322,7 @@ def quantifier(I, name, n):
     finally:
         I.st.pc = saved_pc
         I.facts_seen = saved_seen
+        I.qdepth -= 1
     dom = z3.And(bv >= I.int_term(lo), bv < I.int_term(hi))
     if local:
         body = z3.And(*(local + [body])) if name == 'exists' else z3.Implies(z3.And(*local), body)
